@@ -179,17 +179,19 @@ RecreatesChips(ev) == ev.e \in {"setNumChips", "setChipType", "switchEmulator", 
 ChipsUp(S) == Clamp(Max(S.chips, S.cgood), 0, 101)
 \* the sequencer's tick handler runs at most 10000 rows per call (anti-freeze counter): measured 2.2 s under ASan
 RowsBurst == 2500000
-FastTick(S, ev) == S.song # "none" /\ (S.tempo = "fast" \/ (ev.e = "tickEvents" /\ ev.s \in {"huge", "inf"}))
+\* ... which happens when the call covers a huge time span or accepts a huge granularity ("process everything up to g/2 ahead")
+FastTick(S, ev) == S.song # "none" /\ (S.tempo = "fast" \/ (ev.e = "tickEvents" /\ (ev.s \in {"huge", "inf"} \/ ev.g \in {"huge", "inf"})))
 SeqCost(S, ev) ==
   IF ev.e = "tickEvents" /\ FastTick(S, ev) THEN RowsBurst
   ELSE IF ev.e \in {"play", "playFormat"} /\ FastTick(S, ev) THEN ((Max(ev.n, 0) \div 1024) + 1) * RowsBurst
   ELSE 0
-Cost(S, ev) ==
-  IF NullDev(S, ev) THEN 0
-  ELSE IF IsRender(ev) THEN (Max(ev.n, 0) \div 2) * ChipsUp(S) * CoreK[IF S.emu \in 0..8 THEN S.emu ELSE 0] * RateF(S.rate) + SeqCost(S, ev)
+ChipCost(S, ev) ==
+  IF IsRender(ev) THEN (Max(ev.n, 0) \div 2) * ChipsUp(S) * CoreK[IF S.emu \in 0..8 THEN S.emu ELSE 0] * RateF(S.rate)
   ELSE IF RecreatesChips(ev) THEN 2000 * Clamp(IF ev.e = "setNumChips" /\ ChipsValid(ev.n) THEN ev.n ELSE Max(ChipsUp(S), IF S.craw \in 0..101 THEN S.craw ELSE 0), 1, 101)
-  ELSE SeqCost(S, ev)
-Tmo(S, ev) == 2 + Cost(S, ev) \div 100000                           \* seconds of CPU time the call may take
+  ELSE 0
+Cost(S, ev) == IF NullDev(S, ev) THEN 0 ELSE ChipCost(S, ev) + SeqCost(S, ev)         \* microseconds (estimate): fuel of a history
+\* seconds of CPU time the call may take: 2 s + 10 x the estimated chip work + 2 x the estimated sequencer work
+Tmo(S, ev) == IF NullDev(S, ev) THEN 2 ELSE 2 + ChipCost(S, ev) \div 100000 + SeqCost(S, ev) \div 500000
 \* the VGM dumper is not an audio emulator (it writes a file): no rendering while it is selected
 Enabled(S, ev, cap) == (S.fuel + Cost(S, ev) <= cap) /\ ~(IsRender(ev) /\ S.alive /\ S.emu = VGM)
 
@@ -477,10 +479,17 @@ Mk(f, p) ==
            ELSE q
   IN [e |-> f] @@ b
 
-\* one parameter at a time over its classes (all others ordinary), plus the NULL-device variant
+\* one parameter at a time over its classes (all others ordinary); all pairs for the two-parameter functions with at most 64
+\* combinations (tickEvents, noteOff, patchChange, ...); plus the NULL-device variant
 Sweep(S, f) ==
-  LET P == Par(S, f)  nv == Nv(S, f) IN
+  LET P == Par(S, f)  nv == Nv(S, f)
+      k1 == CHOOSE k \in DOMAIN P : TRUE
+      k2 == CHOOSE k \in DOMAIN P : Cardinality(DOMAIN P) = 2 => k # k1
+      pairs == IF Cardinality(DOMAIN P) = 2 /\ Cardinality(P[k1]) * Cardinality(P[k2]) <= 64
+               THEN { Mk(f, [k \in DOMAIN P |-> IF k = k1 THEN a ELSE b]) : a \in P[k1], b \in P[k2] } ELSE {}
+  IN
   { Mk(f, [nv EXCEPT ![k] = x]) : <<k, x>> \in UNION { { <<kk, xx>> : xx \in P[kk] } : kk \in DOMAIN P } }
+  \cup pairs
   \cup (IF f \in {"reinit"} THEN {} ELSE { Mk(f, nv) @@ [nd |-> 1] })
 \* a call with every parameter drawn from its classes by the seed sd (0 <= sd < 10^6); pure, so that one random draw
 \* made by the caller fixes the whole call (TLC re-evaluates RandomElement at every reference)
